@@ -4,7 +4,7 @@
 
    The keyed hashes (HMAC-SHA256 for tokens, HMAC-MD5 for API keys), bcrypt
    verification, strings.ToLower and the login/password policies are universally
-   quantified functions ([mac], [verify], [lower], ...): every theorem holds for
+   quantified functions ([mac], [cmp], [lower], ...): every theorem holds for
    every such function; where the code relies on a property of it (output
    length of the MAC, idempotence of lower-casing) the property is an explicit
    premise.  What the theorems do NOT say: that producing a valid pair
@@ -225,50 +225,108 @@ Proof. exact code_expiry_fixed. Qed.
 Print Assumptions c12_code_expiry_fixed.
 
 (* ------------------------------ login / password ------------------------------ *)
+(* [cmp] = bcrypt.CompareHashAndPassword as a three-valued oracle over ARBITRARY stored bytes:
+   BcMatch (nil) / BcMismatch (ErrMismatchedHashAndPassword) / BcError e (every other error:
+   hash too short, bad prefix, newer version, unparsable or out-of-range cost, bad salt ...) *)
 
 Theorem c12_basic_auth_sound :
-  forall (lower : list N -> list N) login_ok pw_ok (verify : list N -> list N -> bool)
+  forall (lower : list N -> list N) login_ok pw_ok (cmp : list N -> list N -> bcres)
          st secret st' uid lvl,
-  bstep lower login_ok pw_ok verify st (BAuth secret) = (st', BAuthOk uid lvl) ->
+  bstep lower login_ok pw_ok cmp st (BAuth secret) = (st', BAuthOk uid lvl) ->
   exists u p r, split_colon secret = Some (u, p) /\
     bget (lower u) (bs_store st) = Some r /\
-    verify (br_hash r) p = true /\
+    cmp (br_hash r) p = BcMatch /\
     uid = br_uid r /\ lvl = br_level r /\ uid <> 0 /\
     (match br_expires r with Some e => (bs_now st <= e)%Z | None => True end) /\
     st' = st.
 Proof. exact basic_auth_sound. Qed.
 Print Assumptions c12_basic_auth_sound.
 
-(* a wrong password or an unknown login never authenticates (relative to [verify]) *)
+(* a wrong password or an unknown login never authenticates (relative to [cmp]): anything but
+   the oracle's "match" - mismatch AND every error - is refused *)
 Theorem c12_basic_wrong_never :
-  forall (lower : list N -> list N) login_ok pw_ok (verify : list N -> list N -> bool) st secret u p,
+  forall (lower : list N -> list N) login_ok pw_ok (cmp : list N -> list N -> bcres) st secret u p,
   split_colon secret = Some (u, p) ->
   (bget (lower u) (bs_store st) = None \/
-   exists r, bget (lower u) (bs_store st) = Some r /\ verify (br_hash r) p = false) ->
-  exists e, bstep lower login_ok pw_ok verify st (BAuth secret) = (st, BErr e).
+   exists r, bget (lower u) (bs_store st) = Some r /\ cmp (br_hash r) p <> BcMatch) ->
+  exists e, bstep lower login_ok pw_ok cmp st (BAuth secret) = (st, BErr e).
 Proof.
-  intros lower login_ok pw_ok verify st secret u p S [G|[r [G V]]].
-  - exists BEFailed. exact (basic_unknown_login_never lower login_ok pw_ok verify st secret u p S G).
-  - exact (basic_wrong_password_never lower login_ok pw_ok verify st secret u p r S G V).
+  intros lower login_ok pw_ok cmp st secret u p S [G|[r [G V]]].
+  - exists BEFailed. exact (basic_unknown_login_never lower login_ok pw_ok cmp st secret u p S G).
+  - exact (basic_wrong_password_never lower login_ok pw_ok cmp st secret u p r S G V).
 Qed.
 Print Assumptions c12_basic_wrong_never.
 
+(* for EVERY state - every stored record, ANY bytes in its secret - and every password: the
+   authenticator returns success only if the oracle says match for exactly the bytes stored under
+   the lower-cased login and the password presented *)
+Theorem c12_basic_authenticates_only_on_match :
+  forall (lower : list N -> list N) login_ok pw_ok (cmp : list N -> list N -> bcres)
+         st secret u p r st' uid lvl,
+  split_colon secret = Some (u, p) -> bget (lower u) (bs_store st) = Some r ->
+  bstep lower login_ok pw_ok cmp st (BAuth secret) = (st', BAuthOk uid lvl) ->
+  cmp (br_hash r) p = BcMatch.
+Proof. exact basic_authenticates_only_on_match. Qed.
+Print Assumptions c12_basic_authenticates_only_on_match.
+
+(* ... in particular never on an oracle error (the check does not fail open) *)
+Theorem c12_basic_never_on_oracle_error :
+  forall (lower : list N -> list N) login_ok pw_ok (cmp : list N -> list N -> bcres)
+         st secret u p r e,
+  split_colon secret = Some (u, p) -> bget (lower u) (bs_store st) = Some r ->
+  cmp (br_hash r) p = BcError e ->
+  exists e', bstep lower login_ok pw_ok cmp st (BAuth secret) = (st, BErr e').
+Proof. exact basic_never_on_oracle_error. Qed.
+Print Assumptions c12_basic_never_on_oracle_error.
+
+(* stored bytes rejected by bcrypt's header check ([bc_header] = newFromHash: shorter than 59
+   bytes incl. empty / nil, first byte not '$', major version above '2', cost not two decimal
+   digits / sign+digit, cost outside 4..31) authenticate with NO password at all.  Premise: the
+   oracle reports the error of its own header check (CompareHashAndPassword begins with
+   newFromHash); tested on every run against the real library. *)
+Theorem c12_basic_malformed_hash_never_authenticates :
+  forall (lower : list N -> list N) login_ok pw_ok (cmp : list N -> list N -> bcres)
+         st secret u p r e,
+  (forall h q e0, bc_header h = Some e0 -> cmp h q = BcError e0) ->
+  split_colon secret = Some (u, p) -> bget (lower u) (bs_store st) = Some r ->
+  bc_header (br_hash r) = Some e ->
+  exists e', bstep lower login_ok pw_ok cmp st (BAuth secret) = (st, BErr e').
+Proof. exact basic_malformed_hash_never. Qed.
+Print Assumptions c12_basic_malformed_hash_never_authenticates.
+
+(* the store anomaly: ANY bytes written over the secret of an existing login's row ([BRaw]); the
+   login then authenticates with a password only if the oracle matches those bytes *)
+Theorem c12_basic_raw_secret_then_auth :
+  forall (lower : list N -> list N) login_ok pw_ok (cmp : list N -> list N -> bcres)
+         st uid hash secret u p r,
+  split_colon secret = Some (u, p) -> bget (lower u) (bs_store st) = Some r -> br_uid r = uid ->
+  exists st1, bstep lower login_ok pw_ok cmp st (BRaw uid hash) = (st1, BRawOk) /\
+    bget (lower u) (bs_store st1) = Some (mkBR (br_uid r) (br_level r) hash (br_expires r)) /\
+    (cmp hash p <> BcMatch -> exists e', bstep lower login_ok pw_ok cmp st1 (BAuth secret) = (st1, BErr e')).
+Proof. exact basic_raw_then_auth. Qed.
+Print Assumptions c12_basic_raw_secret_then_auth.
+
+(* the index expressions of newFromHash are guarded by its length test *)
+Theorem c12_bcrypt_header_no_index_panic : forall h, bc_header h <> Some BcIndexPanic.
+Proof. exact bc_header_no_panic. Qed.
+Print Assumptions c12_bcrypt_header_no_index_panic.
+
 (* login names are unique regardless of letter case: every reachable store, all
-   operation sequences (add, update incl. rename, authenticate, time) *)
+   operation sequences (add, update incl. rename, authenticate, time, raw secret writes) *)
 Theorem c12_login_case_insensitive_unique :
-  forall (lower : list N -> list N) login_ok pw_ok (verify : list N -> list N -> bool),
+  forall (lower : list N -> list N) login_ok pw_ok (cmp : list N -> list N -> bcres),
   (forall s, lower (lower s) = lower s) ->
   forall ops k1 r1 k2 r2,
-  let s := bs_store (fst (brun lower login_ok pw_ok verify binit ops)) in
+  let s := bs_store (fst (brun lower login_ok pw_ok cmp binit ops)) in
   In (k1, r1) s -> In (k2, r2) s -> lower k1 = lower k2 -> k1 = k2 /\ r1 = r2.
 Proof. exact logins_unique. Qed.
 Print Assumptions c12_login_case_insensitive_unique.
 
 Theorem c12_login_other_case_refused :
-  forall (lower : list N -> list N) login_ok pw_ok (verify : list N -> list N -> bool)
+  forall (lower : list N -> list N) login_ok pw_ok (cmp : list N -> list N -> bcres)
          st uid lvl secret hash lt u p r,
   split_colon secret = Some (u, p) -> bget (lower u) (bs_store st) = Some r ->
-  exists e, bstep lower login_ok pw_ok verify st (BAdd uid lvl secret hash lt) = (st, BErr e).
+  exists e, bstep lower login_ok pw_ok cmp st (BAdd uid lvl secret hash lt) = (st, BErr e).
 Proof. exact add_other_case_refused. Qed.
 Print Assumptions c12_login_other_case_refused.
 
@@ -291,6 +349,33 @@ Example c12_ex_code :
   snd (crun cfg cinit [CGen [97] 9 0 [49; 50]; CAuth [49; 51; 58; 97]; CAuth [49; 50; 58; 97]; CAuth [49; 50; 58; 97]])
   = [CGenOk [49; 50]; CErr CEFailed; CAuthOk 9 [97]; CErr CEFailed].
 Proof. reflexivity. Qed.
+
+(* login / password: a well-formed header, the anomaly classes, and the authenticator above an
+   oracle that satisfies the premise of [c12_basic_malformed_hash_never_authenticates] *)
+Definition ex_bc_hash : list N := [36; 50; 97; 36; 48; 52; 36; 81; 99; 69; 97; 71; 112; 98; 79; 75; 72; 46; 115; 73; 80; 78; 109; 111; 46; 55; 71; 89; 101; 79; 48; 78; 117; 77; 85; 51; 70; 113; 89; 56; 98; 51; 85; 77; 82; 78; 56; 108; 83; 83; 81; 97; 121; 105; 80; 100; 82; 104; 82; 54].
+Definition ex_cmp (h p : list N) : bcres :=
+  match bc_header h with Some e => BcError e | None => if bytes_eqb p [112; 119] then BcMatch else BcMismatch end.
+Example c12_ex_bcrypt_header :
+  bc_header ex_bc_hash = None /\ bc_header [] = Some BcTooShort /\ bc_header (firstn 58 ex_bc_hash) = Some BcTooShort
+  /\ bc_header (firstn 59 ex_bc_hash) = None /\ bc_header (ex_bc_hash ++ [120]) = None
+  /\ bc_header (120 :: tl ex_bc_hash) = Some BcPrefix /\ bc_header (36 :: 51 :: skipn 2 ex_bc_hash) = Some BcVersion
+  /\ bc_header (firstn 4 ex_bc_hash ++ [48; 51] ++ skipn 6 ex_bc_hash) = Some BcCostRange
+  /\ bc_header (firstn 4 ex_bc_hash ++ [51; 50] ++ skipn 6 ex_bc_hash) = Some BcCostRange
+  /\ bc_header (firstn 4 ex_bc_hash ++ [43; 52] ++ skipn 6 ex_bc_hash) = None
+  /\ bc_header (firstn 4 ex_bc_hash ++ [32; 52] ++ skipn 6 ex_bc_hash) = Some BcCostSyntax
+  /\ bc_header (repeat 112 60) = Some BcPrefix.
+Proof. vm_compute. repeat split. Qed.
+Example c12_ex_basic_raw :
+  let idf := fun x : list N => x in
+  let tt := fun _ : list N => true in
+  snd (brun idf tt tt ex_cmp binit
+         [BAdd 1 20 [97; 58; 112; 119] ex_bc_hash 0; BAuth [97; 58; 112; 119]; BAuth [97; 58; 120];
+          BRaw 1 []; BAuth [97; 58; 112; 119]; BAuth [97; 58];
+          BRaw 1 (firstn 30 ex_bc_hash); BAuth [97; 58; 112; 119];
+          BRaw 1 ex_bc_hash; BAuth [97; 58; 112; 119]; BRaw 2 []])
+  = [BAddOk 20; BAuthOk 1 20; BErr BEFailed; BRawOk; BErr BEFailed; BErr BEFailed; BRawOk; BErr BEFailed;
+     BRawOk; BAuthOk 1 20; BErr BENotFound].
+Proof. vm_compute. reflexivity. Qed.
 
 Example c12_ex_code_lockout :
   let cfg := mkCC 2 10000000000 in
